@@ -431,7 +431,7 @@ def count_used(b, tm, is_count):
 
 def rule_r3(facts):
     r = report.RuleResult("C12.R3", "on success every pending byte is handed to the sink and the sink is flushed")
-    impls = [b for b in facts.bodies if b.trait == "decode::lzbuffer::LzBuffer" and b.item == "finish"]
+    impls = [b for b in facts.bodies if b.trait == "decode::lzbuffer::LzBuffer" and b.item == "finish" and b.promoted is None]
     r.need("two LzBuffer::finish implementations", len(impls) >= 2)
     for b in impls:
         fn = short(b.name)
